@@ -151,10 +151,21 @@ let () =
       emit ("cyc " ^ string_of_int (int_of_n n)));
   (* spec.dtrace: like spec.step but prints the documented data accesses "cycle kind addr" *)
   register "spec.dtrace" (fun _ ->
-      let (((c, b), t), _) = sb_spec_instr !st in
+      if not (sb_opcode_defined !st) then raise (Exit_ "");
+      let (((c, b), t), n) = sb_spec_instr !st in
       st := (c, b);
-      emit (String.concat " " (List.map (fun ((cy, k), ad) ->
-          Printf.sprintf "%d%s%d" (int_of_n cy) (match k with DRead -> "R" | DWrite -> "W") (int_of_n ad)) t)))
+      emit ("cyc " ^ string_of_int (int_of_n n));
+      emit ("sched " ^ String.concat " " (List.map (fun ((cy, k), ad) ->
+          Printf.sprintf "%d%s%d" (int_of_n cy) (match k with DRead -> "R" | DWrite -> "W") (int_of_n ad)) t)));
+  (* cpu.trace: the model's ghost trace of the current instruction, in the specification's format (data accesses only) *)
+  register "cpu.trace" (fun _ ->
+      let (c, _) = !st in
+      let items = List.rev (List.filter_map (fun ((i, k), ad) ->
+          match k with
+          | ARead -> Some (Printf.sprintf "%dR%d" (int_of_n (n_of_int 0) + (let rec nat_to_int = function O -> 0 | S m -> 1 + nat_to_int m in nat_to_int i) + 1) (int_of_n ad))
+          | AWrite -> Some (Printf.sprintf "%dW%d" ((let rec nat_to_int = function O -> 0 | S m -> 1 + nat_to_int m in nat_to_int i) + 1) (int_of_n ad))
+          | AFetch -> None) c.trace) in
+      emit ("sched " ^ String.concat " " items))
 
 (* cpu.stepdiff: one instruction; prints the cycle count and every bus-visible location whose value changed.
    The model's memory only holds written cells, so the candidates are the written cells (with their echo), IF and IE;
